@@ -369,11 +369,11 @@ func copies() []interface{} {
 }
 
 func Run(r *fw.Run) {
-	r.Rule = "seed corpus = one valid manifest per kind the tool reads (18 documents incl. a List wrapper and a NetworkPolicy whose entire-cluster rule has named ports only); every single structural mutation (drop, null, empty map/list/string, retype, value alphabet: IPv6 / invalid addresses and CIDRs, 0 / -1 / 70000, unknown enum strings) of every node; thorough adds all pairs of mutations within one document and byte-level truncations / line deletions; plus four valid documents with API fields the analysis does not support (ANP networks / nodes / domainNames peers, a reversed port range) or on the documented named-port error path, each alone next to the corpus, unmutated and singly mutated; plus strided worlds of the exposure, admin-policy and ingress alphabets through the resource-info API (feature interactions on valid input); each mutant directory is analysed by list, list --exposure (all five formats each), diff in both positions (four formats) and eval (loader of the CLI + five queries); non-trivial = the mutant changes an outcome (error / different result); distinct = distinct outcome vectors per document kind"
+	r.Rule = "seed corpus = one valid manifest per kind the tool reads (18 documents incl. a List wrapper and a NetworkPolicy whose entire-cluster rule has named ports only); every single structural mutation (drop, null, empty map/list/string, retype, value alphabet: IPv6 / invalid addresses and CIDRs, 0 / -1 / 70000, unknown enum strings) of every node; thorough adds all pairs of mutations within one document and byte-level truncations / line deletions; plus eight valid documents with API fields or API versions the analysis does not support (ANP networks / nodes / domainNames peers, a reversed port range, extensions/v1beta1 Ingress and NetworkPolicy, batch/v1beta1 CronJob, Route weights and non-Service backends) or on the documented named-port error path, each alone next to the corpus, unmutated and singly mutated; plus strided worlds of the exposure, admin-policy and ingress alphabets through the resource-info API (feature interactions on valid input); each mutant directory is analysed by list, list --exposure (all five formats each), diff in both positions (four formats) and eval (loader of the CLI + five queries); non-trivial = the mutant changes an outcome (error / different result); distinct = distinct outcome vectors per document kind"
 	r.Assume = []string{"oracle: every call returns (result and/or error); a recovered panic, a dead worker process or a 120 s per-case watchdog expiry is a violation", "exposure analysis is run on the corpus without the admin-policy documents (it refuses them up front), and additionally with them when the mutated document is an admin policy"}
 	setup()
 	if r.Quick() {
-		r.SetBudget(170 * time.Second)
+		r.SetBudget(300 * time.Second)
 	} else {
 		r.SetBudget(40 * time.Minute)
 	}
